@@ -86,7 +86,25 @@ pub fn run(args: &Args) {
     }
     out.case(json!({"m": "sel", "tags": tags, "excl": excl, "incl": incl}), json!(got), json!({"tags": tags, "excl": excl, "incl": incl}));
 
-    // the linter runs exactly the selected rules, accounting rules last: observe execution order
+    // the linter runs exactly the selected rules: a file with directives (unused, unknown and used ones) and a
+    // little of everything is linted under the selection; every diagnostic must come from a selected rule, and
+    // each selected rule must report what it reports when run alone
+    if i % 4 == 1 && !got.is_empty() {
+      use dlharness::gen::*;
+      let o = DirGenOpts { file_word: "deno-lint-ignore-file", line_word: "deno-lint-ignore", decoys: vec![], ts: true };
+      let df = directive_file(&mut rng, &o);
+      let l = mk_linter(rules_by_codes(&got), &Words::default());
+      if let Outcome::Ok(ds) = lint(&l, &df.src, "ts") {
+        out.eval(&format!("{}|{}", key, df.src), !ds.is_empty(), json!({"tags": tags, "excl": excl, "incl": incl, "src": df.src}));
+        let stray: Vec<_> = ds.iter().filter(|d| !got.contains(&d.code)).map(|d| d.json()).collect();
+        if !stray.is_empty() {
+          out.found("C15", "diagnostic-from-unselected-rule", &key, json!({"meta": {"tags": tags, "excl": excl, "incl": incl, "selected": got, "src": df.src}, "stray": stray}));
+        }
+        out.count(if ds.is_empty() { "lint-under-selection=silent" } else { "lint-under-selection=reports" });
+      }
+    }
+
+    // …accounting rules last: observe execution order
     if i % 8 == 0 {
       let mut sel: Vec<String> = got.clone();
       rng.shuffle(&mut sel);
